@@ -512,6 +512,40 @@ if (not np.array_equal(got['pix'], x) or got['prop'].tolist() != [0.2, 0.3] or g
 """, "expect": "persistence hands the detector's pixel array, trapped charge and time step, the two maps and the trap lists to the kernel and stores both results"}
 
 
+PLACE_REPLAY = lambda w: {"code": """
+import numpy as np, tempfile, os, importlib
+from pyxel.detectors import CMOS, CMOSGeometry, Characteristics, Environment
+from pyxel.util import fit_into_array
+M = importlib.import_module('pyxel.models.charge_collection.persistence')
+d = tempfile.mkdtemp()
+dens = np.arange(63.0).reshape(7, 9) / 100.0; caps = 1000.0 + np.arange(63.0).reshape(7, 9)
+fd, fc = os.path.join(d, 'dens.npy'), os.path.join(d, 'caps.npy'); np.save(fd, dens); np.save(fc, caps)
+seen = {}
+real = M.compute_persistence
+def spy(**kw):
+    seen['dens'], seen['caps'] = np.array(kw['trap_densities_2d']), None if kw['trap_capacities_2d'] is None else np.array(kw['trap_capacities_2d'])
+    return real(**kw)
+M.compute_persistence = spy
+VIOLATED, DETAIL = False, 'each trap map is placed with its own offset and alignment keyword'
+try:
+    for da, ca in (('center', 'top_left'), ('top_left', 'bottom_right'), ('bottom_left', 'center'), (None, 'top_right'), ('bottom_right', None)):
+        for dp, cp in (((0, 0), (0, 0)), ((1, 2), (2, 1))):
+            det = CMOS(geometry=CMOSGeometry(row=4, col=5, pixel_vert_size=1.0, pixel_horz_size=1.0, total_thickness=1.0), environment=Environment(), characteristics=Characteristics())
+            det.set_readout(times=[1.0], start_time=0.0); det.readout_properties.time_step = 1.0
+            det.pixel.array = np.full((4, 5), 100.0)
+            M.persistence(det, trap_time_constants=[1.0, 10.0], trap_proportions=[0.4, 0.6], trap_densities_filename=fd, trap_capacities_filename=fc,
+                          trap_densities_position=dp, trap_densities_align=da, trap_capacities_position=cp, trap_capacities_align=ca)
+            wd = fit_into_array(array=dens, output_shape=(4, 5), relative_position=dp, align=da, allow_smaller_array=False)
+            wc = fit_into_array(array=caps, output_shape=(4, 5), relative_position=cp, align=ca, allow_smaller_array=False)
+            if not np.array_equal(seen['dens'], np.clip(wd, 0, None)) or not np.array_equal(seen['caps'], wc):
+                VIOLATED, DETAIL = True, f'densities align={da} at {dp}, capacities align={ca} at {cp}: kernel got densities[0]={seen["dens"][0].tolist()} capacities[0]={seen["caps"][0].tolist()}, expected {np.clip(wd, 0, None)[0].tolist()} / {wc[0].tolist()}'
+                break
+        if VIOLATED: break
+finally:
+    M.compute_persistence = real
+""", "expect": "the densities map and the capacities map reach the kernel placed by their own position and alignment keyword"}
+
+
 @unit("C15", "model.persistence")
 def full_persistence_model(u: Unit):
     fi = u.fn(f"{CC}persistence.py::persistence")
@@ -564,8 +598,13 @@ def full_persistence_model(u: Unit):
                 ex.taus = [VFloat(z3.Real(f"tau{i}")) for i in range(2)]
                 ex.props = [VFloat(z3.Real(f"prop{i}")) for i in range(2)]
                 ex.files = {"dens": VStr(z3.String("densities_file")), "cap": VStr(z3.String("capacities_file"))}
+                # where each map goes: its own (y, x) offset and its own alignment keyword (arbitrary texts / integers)
+                ex.place = {"dens": (VInt(z3.Int("dens_pos_y")), VInt(z3.Int("dens_pos_x")), VStr(z3.String("dens_align"))),
+                            "cap": (VInt(z3.Int("cap_pos_y")), VInt(z3.Int("cap_pos_x")), VStr(z3.String("cap_align")))}
                 return [det], {"trap_time_constants": st.alloc(HList(list(ex.taus))), "trap_proportions": st.alloc(HList(list(ex.props))), "trap_densities_filename": ex.files["dens"],
-                               "trap_capacities_filename": ex.files["cap"] if caps else NONE}
+                               "trap_capacities_filename": ex.files["cap"] if caps else NONE,
+                               "trap_densities_position": VTuple([ex.place["dens"][0], ex.place["dens"][1]]), "trap_densities_align": ex.place["dens"][2],
+                               "trap_capacities_position": VTuple([ex.place["cap"][0], ex.place["cap"][1]]), "trap_capacities_align": ex.place["cap"][2]}
             ps = u.paths(fi, setup, cfg, label=f"persistence[{tag}]")
             n_ret = 0
             for p in ps:
@@ -589,6 +628,17 @@ def full_persistence_model(u: Unit):
                 d_ok = (to_real(p.st.cell(dm).elem(G)) == z3.If(md >= 0, md, 0)) if ok and p.ex.is_arr(dm) else z3.BoolVal(False)
                 c_ok = ((to_real(p.st.cell(cm).elem(G)) == mc) if p.ex.is_arr(cm) else z3.BoolVal(False)) if caps else zb(isinstance(cm, VNone))
                 u.oblige(p, f"model.persistence.maps_of_the_named_files[{tag}]", z3.And(zb(which == (["dens", "cap"] if caps else ["dens"])), d_ok, c_ok), {"loads": str(which)}, FULLP_REPLAY)
+                # C20: each map is placed with ITS OWN offset and alignment keyword, on the detector's pixel grid, never smaller than it
+                def placed(which_, kw_):
+                    py, px, al = p.ex.place[which_]
+                    gy, gx, ga, sh = kw_.get("position_y"), kw_.get("position_x"), kw_.get("align"), kw_.get("shape")
+                    if not (isinstance(gy, VInt) and isinstance(gx, VInt) and isinstance(ga, VStr) and isinstance(sh, VTuple) and len(sh.items) == 2):
+                        return z3.BoolVal(False)
+                    allow = kw_.get("allow_smaller_array")
+                    return z3.And(z_int(gy.v) == z_int(py.v), z_int(gx.v) == z_int(px.v), z_str(ga.v) == z_str(al.v), z_int(int_of(sh.items[0])) == R, z_int(int_of(sh.items[1])) == C_,
+                                  zb(isinstance(allow, VBool) and allow.v is False))
+                u.oblige(p, f"model.persistence.maps_placed_with_their_own_keywords[{tag}]", z3.And(*[placed(w_, k_) for w_, k_ in loads]) if loads else z3.BoolVal(False),
+                         {"dens_align": z3.String("dens_align"), "cap_align": z3.String("cap_align"), "dens_pos_y": z3.Int("dens_pos_y"), "cap_pos_y": z3.Int("cap_pos_y")}, PLACE_REPLAY)
                 out = D.frame_elem(p.st, D.bucket_array(p.st, p.ex.det_parts["pixel"]))
                 pers = p.st.cell(p.ex.det_parts["det"]).fields["_persistence"]
                 tr = p.st.cell(pers).fields.get("_trapped_charge_array") if isinstance(pers, VRef) else None
